@@ -38,8 +38,27 @@ fn run(ctx: &Ctx) {
 
 fn ending(t: &mut Tape, dtls: bool, valid: &[u8]) -> (&'static str, Vec<u8>) {
     let hdr = if dtls { 13 } else { 5 };
-    match t.below(6) {
+    match t.below(7) {
         0 => ("nothing", vec![]),
+        6 => {
+            // a record over the cap whose payload is fully present and decodable: the single-record parser refuses it (TooLarge)
+            let l = t.pick(&[16641usize, 16642, 17000, 20000]);
+            let mut e = Enc::new();
+            if dtls {
+                e.u8(0x14);
+                e.u16(0xfefd);
+                e.u16(0);
+                e.u48(7);
+                e.u16(l as u16);
+                e.bytes(&vec![1u8; l]);
+            } else {
+                e.u8(0x17);
+                e.u16(0x0303);
+                e.u16(l as u16);
+                e.bytes(&vec![0x42u8; l]);
+            }
+            ("oversized-complete", e.buf)
+        }
         1 => {
             // a truncated record
             if valid.len() < 2 {
